@@ -4,8 +4,8 @@ from .ir import IR
 
 REPO = os.environ.get('VERIF_REPO', '/repo')
 VERIF = os.path.dirname(os.path.dirname(os.path.abspath(__file__)))
-OUT = os.path.join(VERIF, 'out')
-BIN = os.path.join(OUT, 'bin', 'ssaexport')
+OUT = os.environ.get('VERIF_OUT') or os.path.join(VERIF, 'out')      # VERIF_OUT / VERIF_REPO / VERIF_EVIDENCE: used by tools/seed_matrix.py to run checks against scratch copies
+BIN = os.path.join(VERIF, 'out', 'bin', 'ssaexport')
 
 SERVER_ROOTS = ['./cmd/keymasterd', './lib/certgen', './lib/pwauth/ldap', './lib/pwauth/command', './lib/pwauth/htpassword',
                 './lib/authutil', './lib/util', './lib/server/aws_identity_cert', './lib/instrumentedwriter', './lib/webapi/v0/proto',
